@@ -335,6 +335,9 @@ func (w *cworld) applyExt(op extOp) {
 				if op.Data == nil || op.Data["noObservedGeneration"] != true {
 					st["observedGeneration"] = g
 				}
+				if op.Data != nil && op.Data["observedGenerationAsString"] == true {
+					st["observedGeneration"] = fmt.Sprint(g)
+				}
 				o["status"] = st
 				delete(md(o), "resourceVersion")
 				w.srv.Seed(o)
